@@ -1,3 +1,4 @@
+import numpy as np
 import xarray as xr
 from dask.base import compute
 from typing_extensions import Self
@@ -38,7 +39,8 @@ class Sanitizer(Transformer):
             )
 
     def _check_input_coords(self, X) -> None:
-        if not X.coords[self.feature_name].identical(self.feature_coords):
+        # Compare the labels only, not the scalar coordinates or attributes attached to them
+        if not X.indexes[self.feature_name].equals(self.feature_coords.to_index()):
             raise ValueError(
                 "Cannot transform data. Feature coordinates are different."
             )
@@ -106,7 +108,7 @@ class Sanitizer(Transformer):
             )
 
             # Validate that non-NaN features match the original from .fit()
-            if not X_valid_features.equals(self.is_valid_feature):
+            if not np.array_equal(X_valid_features.values, self.is_valid_feature.values):
                 raise ValueError(
                     "Input data had NaN features in different locations than"
                     " the original data."
